@@ -161,6 +161,38 @@ class C16(Check):
         if np.any(alive):
             g = np.where(alive)[0]
             out.close('rays_i_equals_last_record', np.asarray(res.i, dtype=float)[g], rec['intensity'][-1][g], atol=0)
+        # a bundle whose rays carry different wavelengths (RealRays.w is an array): every ray is attenuated as it is in a
+        # bundle of its own wavelength
+        if len(spec['wls']) >= 2 and n >= 2 and not case.get('ir_plate'):
+            w_b = [x for x in spec['wls'] if x != w][case['wl'] % (len(spec['wls']) - 1)]
+            sg = o.surface_group
+
+            def launch(wv):
+                r = o.ray_generator.generate_rays(np.zeros_like(Hy), Hy.copy(), Px.copy(), Py.copy(), w)
+                r.w = np.asarray(wv, dtype=float) * np.ones(n)
+                return r
+            first = np.arange(n) % 2 == 0
+            sg.trace(launch(np.where(first, w, w_b)))
+            I_mix = np.array(sg.intensity, dtype=float)
+            sg.trace(launch(w))
+            I_a = np.array(sg.intensity, dtype=float)
+            sg.trace(launch(w_b))
+            I_b = np.array(sg.intensity, dtype=float)
+            want = np.where(first[None, :], I_a, I_b)
+            both = np.isfinite(I_mix) & np.isfinite(want)
+            # exp(-x) carries the rounding of x: relative tolerance 1e-12 max(1, |ln I|)
+            with np.errstate(all='ignore'):
+                lev = np.maximum(1.0, np.abs(np.log(np.where(want[both] > 0, want[both], 1.0))))
+            err = np.abs(I_mix[both] - want[both])
+            # iterated surfaces stop at a residual of 1e-6 mm that depends on the bundle (C13's surface-intersection
+            # tolerance): the absorbing path next to each of them is known to 2e-6 mm only
+            n_it = sum(1 for q in spec['surfs'] if q['type'] != 'standard')
+            kmax = max(max(GL.media(spec, x)[1]) for x in (w, w_b))
+            extra = n_it * 2 * 4 * math.pi * kmax * 2e-3 / min(w, w_b)
+            bad = err > (1e-12 * lev + extra) * np.abs(want[both]) + 1e-300
+            out.expect('ray_attenuated_at_its_own_wavelength', not np.any(bad), wavelengths=[float(w), float(w_b)],
+                       n_bad=int(np.sum(bad)), got=I_mix[both][bad][:3], want=want[both][bad][:3])
+            out.cls('bundle_of_mixed_wavelengths')
         # analyses report the intensities of the traced rays
         if case.get('analysis', True):
             from optiland.analysis import SpotDiagram
